@@ -4,6 +4,7 @@ import (
 	"fmt"
 	"go/types"
 	"math/big"
+	"strings"
 )
 
 // packedMsg is the single pseudo-byte of a packed protobuf message: the codec
@@ -137,4 +138,96 @@ func prim_verifUnpack(fr *frame, args []value) value {
 	p := m.v.(*value)
 	store(mustDeref(m.t), p, deepClone(pm.v, map[*value]*value{}))
 	return nil
+}
+
+// mergeUnpack models a GENERATED (*T).Unmarshal(bytes) on bytes of the abstract codec. Unlike the codec's
+// Unmarshal (which resets the target first) the generated method MERGES into the receiver, and proto3 leaves
+// zero-valued scalars, empty strings / byte strings, empty repeated fields and absent messages off the wire:
+// those fields of the receiver keep what they held. Scalars present on the wire overwrite, repeated fields
+// append, messages merge recursively, values with their own encoding (customtype, std time) overwrite.
+func mergeUnpack(fr *frame, T types.Type, dst *value, src value) {
+	st, ok := T.Underlying().(*types.Struct)
+	if !ok {
+		panic(unsupported(fmt.Sprintf("generated Unmarshal into %s", T)))
+	}
+	d := (*dst).(structure)
+	s := src.(structure)
+	for k := 0; k < st.NumFields(); k++ {
+		ft := st.Field(k).Type()
+		if strings.HasPrefix(st.Field(k).Name(), "XXX_") {
+			continue
+		}
+		switch u := ft.Underlying().(type) {
+		case *types.Basic:
+			present := true
+			switch x := s[k].(type) {
+			case symInt:
+				present = !fr.i.decide(fr.i.tc.Eq(x.t, fr.i.tc.Const(new(big.Int))), "field is zero (left off the wire)")
+			case symBool:
+				present = fr.i.decide(x.t, "boolean field is set (on the wire)")
+			case symStr, symF64:
+				panic(unsupported("generated Unmarshal of a message with an opaque text / float field"))
+			case bool:
+				present = x
+			case string:
+				present = x != ""
+			default:
+				present = !equals(ft, s[k], zero(ft))
+			}
+			if present {
+				d[k] = s[k]
+			}
+		case *types.Slice:
+			sl, _ := s[k].([]value)
+			if len(sl) == 0 {
+				continue
+			}
+			if b, ok := u.Elem().Underlying().(*types.Basic); ok && b.Kind() == types.Uint8 {
+				d[k] = deepClone(s[k], map[*value]*value{})
+				continue
+			}
+			old, _ := d[k].([]value)
+			d[k] = append(append([]value{}, old...), deepClone(s[k], map[*value]*value{}).([]value)...)
+		case *types.Pointer:
+			sp, _ := s[k].(*value)
+			if sp == nil {
+				continue
+			}
+			dp, _ := d[k].(*value)
+			if dp == nil {
+				d[k] = deepClone(s[k], map[*value]*value{})
+				continue
+			}
+			if _, isStruct := u.Elem().Underlying().(*types.Struct); isStruct && isGeneratedMessage(u.Elem()) {
+				mergeUnpack(fr, u.Elem(), dp, *sp)
+			} else {
+				*dp = deepClone(*sp, map[*value]*value{})
+			}
+		case *types.Struct:
+			if isGeneratedMessage(ft) {
+				mergeUnpack(fr, ft, &d[k], s[k])
+			} else {
+				d[k] = deepClone(s[k], map[*value]*value{})
+			}
+		case *types.Map:
+			sm, _ := s[k].(map[value]value)
+			if len(sm) == 0 {
+				continue
+			}
+			panic(unsupported("generated Unmarshal of a message with a populated map field"))
+		default:
+			if _, isNil := s[k].(iface); isNil && s[k].(iface).t == nil {
+				continue
+			}
+			d[k] = deepClone(s[k], map[*value]*value{})
+		}
+	}
+}
+
+// isGeneratedMessage: a struct type with a generated Unmarshal of its own that is not a value type with a
+// private encoding (math.Int, LegacyDec, time.Time, ...): its pointer method set has both Unmarshal and
+// XXX_Unmarshal / ProtoMessage.
+func isGeneratedMessage(t types.Type) bool {
+	ms := types.NewMethodSet(types.NewPointer(t))
+	return ms.Lookup(nil, "ProtoMessage") != nil && ms.Lookup(nil, "Unmarshal") != nil
 }
